@@ -54,6 +54,8 @@ func register(r *mc.Registry) {
 	} else {
 		add("iter/e2e/p2", 2, iterE2E(2, true, inputs2))
 	}
+	add("iter/concat-state/p3", 3, iterConcatState(false, inputs3))
+	add("iter/concat-state/p4", 4, iterConcatState(true, inputs3))
 	add("iter/two-sided", 3, iterTwoSided(inputs))
 	add("iter/sources", 2, iterSources(inputs))
 	if r.Thorough() {
